@@ -175,5 +175,6 @@ pub fn behaviour() -> Behaviour {
         thorough: 15000,
         batch: 20,
         assumptions: &["layout-dependent behaviour is observed on x86-64 only; the debug build turns misaligned reads into aborts"],
+        miri_units: 24,
     }
 }
